@@ -195,11 +195,113 @@ def run_c11g(chk, replay=None, prop='C11'):
                                    "same bytes written (up to hash-container order), guards intact")
 
 
+def _malformed_pairs(gb, rng, tier):
+    """the error direction (C12_gen_error): reference encodings of struct / union values, truncated at sampled offsets or
+    with one byte incremented (a container count / length / type code / field id that is off by a little: where the sync
+    reader rejects a count the async reader starts reading and must run dry); each input decoded by `decode` and by
+    `decode_async` under a scripted schedule (op `mem`: outcome only -- corrupted strings need not be UTF-8).
+    Increments that land in a high count byte make the async container decoders preallocate (finding F-09e, property
+    C09): those outcomes are not judged here."""
+    sch = gb.schema
+    cases = []
+    k = 0
+    per = 2 if tier == 'quick' else 8
+    for cfg in gb.configs:
+        for tname in sch.names_in(cfg):
+            if sch.types[tname]['kind'] not in ('struct', 'union'):
+                continue
+            ty = ('ref', tname)
+            for i in range(per):
+                v = gengen.gen_value(rng, sch, ty, 2)
+                for proto in genrun.ASYNC_PROTOS:
+                    enc = genref.encode(sch, ty, v, proto)
+                    if not enc or len(enc) > 400:
+                        continue
+                    muts = [(enc[:c], 'trunc') for c in sorted(set(rng.sample(range(len(enc)), min(len(enc), 3))))]
+                    for _ in range(4):
+                        b = bytearray(enc)
+                        pos = rng.randrange(len(b))
+                        b[pos] = (b[pos] + rng.choice([1, 1, 2, 16])) & 0xff
+                        muts.append((bytes(b), 'incr'))
+                    for data, how in muts:
+                        k += 1
+                        key = 'm%d' % k
+                        mode = 'async:' + genrun.SCHEDULES[k % len(genrun.SCHEDULES)]
+                        twin = dict(line=genrun.case_line('mem', cfg, tname, proto, mode, data), cfg=cfg, type=tname, proto=proto, mode=mode,
+                                    key=key, twin=True, malformed=how, nontrivial=True, model=False)
+                        first = dict(line=genrun.case_line('mem', cfg, tname, proto, 'sync', data), cfg=cfg, type=tname, proto=proto, mode='sync',
+                                     key=key, malformed=how, nontrivial=True, model=False, companions=[twin])
+                        cases.append(first)
+                        cases.append(twin)
+    return cases
+
+
+def _mem_kind(out):
+    m = MEM_RE.match(out or '')
+    return m.group(1) if m else 'crash'
+
+
+def _post_c12g(chk, stats):
+    def post(gb, cases, outs):
+        from . import gencorr
+        well = [(c, o) for c, o in zip(cases, outs) if not c.get('malformed')]
+        bad = _post_same('decode_async vs decode')(gb, [c for c, _ in well], [o for _, o in well])
+        mal = [(c, o) for c, o in zip(cases, outs) if c.get('malformed')]
+        first = {c['key']: (c, o) for c, o in mal if not c.get('twin')}
+        # the models on the same inputs: Gen.v for the sync line, GenAsync.v for the async line (runner op `dec`)
+        mouts = gencorr.run_spec(gb, ['dec' + c['line'][3:] for c, _ in mal]) or [None] * len(mal)
+        n_model, mism = 0, []
+        for (c, o), m in zip(mal, mouts):
+            ik = _mem_kind(o)
+            swallow = genrun.is_arg_swallow(gb.schema, c['cfg'], c['type'], c['mode'])
+            prealloc = c.get('twin') and ik in ('crash', 'hang', 'panic') and has_container(gb.schema, c['type'])
+            if m is not None and not prealloc:
+                mk = gencorr._split_model(m)['kind']
+                n_model += 1
+                if mk != ik and not (swallow and ik in ('panic', 'crash')):
+                    mism.append((c, o, m))
+            if not c.get('twin'):
+                continue
+            c0, o0 = first[c['key']]
+            ak = _mem_kind(o0)
+            cls = 'keep-is-arg-swallow' if genrun.is_arg_swallow(gb.schema, c['cfg'], c['type'], 'sync') else None
+            if cls is None and 'keep' in c['cfg'] and (genrun.keeps(gb.schema, c['type']) or
+                                                       genrun.reaches(gb.schema, c['type'], lambda n, d: genrun.keeps(gb.schema, n))):
+                # F-12a: only the sync templates of a keep build retain unknown fields; a corrupted field id makes a field unknown
+                cls = 'keep-async-no-retention'
+            if prealloc:
+                continue            # F-09e (async preallocation from the wire count): property C09
+            if ak == 'err' and ik != 'err':
+                bad.append((c0, 'decode reports an error, decode_async does not (%s vs %s)' % ((o0 or '')[:60], (o or '')[:60]), cls, o))
+            elif ak == 'ok' and ik != 'ok':
+                bad.append((c0, 'decode returns a value, decode_async does not (%s vs %s)' % ((o0 or '')[:60], (o or '')[:60]), cls, o))
+        stats.update(malformed_model_lines=n_model, malformed_model_mismatches=len(mism))
+        if mism and not bad:
+            c, o, m = mism[0]
+            chk.violation('correspondence gen-codec broken on corrupted input: extracted model and emitted code disagree (%d of %d lines: '
+                          'implementation %s, model %s) but the property oracle found no failing input'
+                          % (len(mism), n_model, (o or '')[:40], (m or '')[:40]),
+                          dict(kind='correspondence', correspondence='gen codec on corrupted input (Gen.v / GenAsync.v vs emitted code)',
+                               case=c, impl_output=(o or '')[:2000], model_output=(m or '')[:2000]), no_input=True)
+        return bad
+    return post
+
+
 def run_c12g(chk, replay=None, prop='C12'):
     def second(p, k):
         return (p, 'async:' + genrun.SCHEDULES[k % len(genrun.SCHEDULES)])
-    return gencheck.run_check(chk, replay, prop, lambda gb, rng, tier: _pairs(gb, rng, tier, second),
-                              lambda gb, c, o: [], post=_post_same('decode_async vs decode'),
+
+    stats = {}
+
+    def extra(cases, outs):
+        mal = [(c, o) for c, o in zip(cases, outs) if c.get('malformed') and not c.get('twin')]
+        return dict(stats, malformed_inputs=len(mal), malformed_sync_errors=sum(1 for _, o in mal if (o or '').startswith('err')),
+                    malformed_kinds={k: sum(1 for c, _ in mal if c['malformed'] == k) for k in ('trunc', 'incr')})
+    return gencheck.run_check(chk, replay, prop, lambda gb, rng, tier: _pairs(gb, rng, tier, second) + _malformed_pairs(gb, rng, tier),
+                              lambda gb, c, o: [], post=_post_c12g(chk, stats), extra_dist=extra,
                               rule="every emitted type x generated values x {binary, binary_le, compact}: decode_async under a scripted schedule "
                                    "(one chunk, byte by byte, 3/7-byte chunks, Pending before every hand-out) vs decode on the same bytes with "
-                                   "trailing bytes: same value, same number of bytes taken from the stream")
+                                   "trailing bytes: same value, same number of bytes taken from the stream; plus, per struct / union, reference "
+                                   "encodings truncated at sampled offsets or with one byte incremented (counts, lengths, type codes, ids): an "
+                                   "error whenever decode reports one, the same value otherwise; async lines are answered by the model of the "
+                                   "decode_async templates (GenAsync.v)")
